@@ -788,6 +788,14 @@ where
                 let mut q = p.clone();
                 q[t0..].reverse();
                 go(rec, st, token_string::<B, P>(&q, f), &km.unseal, &aad, true, json!({"cls":"tag-permuted","how":"reversed"}));
+                // 1c. degenerate tags / signatures: all of it, or one half, blanked with zeros or ones (an ECDSA r or s of 0 or above the
+                // group order, an Ed25519 point / scalar that does not decode, an RSA signature above the modulus)
+                for (how, range, fill) in [("all-zero", 0..tlen, 0u8), ("all-ones", 0..tlen, 0xff), ("first-half-zero", 0..tlen / 2, 0), ("second-half-zero", tlen / 2..tlen, 0),
+                                           ("first-half-ones", 0..tlen / 2, 0xff), ("second-half-ones", tlen / 2..tlen, 0xff)] {
+                    let mut q = p.clone();
+                    q[t0..][range].fill(fill);
+                    go(rec, st, token_string::<B, P>(&q, f), &km.unseal, &aad, true, json!({"cls":"tag-degenerate","how":how}));
+                }
                 let mut q = p.clone();
                 q[t0..].rotate_left(1);
                 go(rec, st, token_string::<B, P>(&q, f), &km.unseal, &aad, true, json!({"cls":"tag-permuted","how":"rotated"}));
